@@ -112,7 +112,13 @@ _BIN = {
 }
 import hashlib as _hl
 import hmac as _hm
+import itertools as _it
 import re as _re
+
+
+def _lz(f):
+    """finite itertools results as lists (the evaluator's loops and builtins take lists)"""
+    return lambda *a, **k: list(f(*a, **k))
 
 _PURE_METHODS = {
     bytes: {"startswith", "endswith", "hex", "decode", "lstrip", "rstrip", "strip", "find", "index", "count", "join"},
@@ -149,6 +155,10 @@ class Evaluator:
                           "math": Namespace(ceil=_m.ceil, floor=_m.floor, log=_m.log, log2=_m.log2, sqrt=_m.sqrt), "ceil": _m.ceil, "floor": _m.floor,
                           "hashlib": Namespace(sha256=_hl.sha256, sha1=_hl.sha1, sha512=_hl.sha512, new=_hl.new, pbkdf2_hmac=_hl.pbkdf2_hmac),
                           "hmac": Namespace(new=_hm.new, compare_digest=_hm.compare_digest, digest=_hm.digest),
+                          "itertools": Namespace(accumulate=_lz(_it.accumulate), chain=_lz(_it.chain), combinations=_lz(_it.combinations), permutations=_lz(_it.permutations),
+                                                 product=_lz(_it.product), islice=_lz(_it.islice), zip_longest=_lz(_it.zip_longest), repeat=_it.repeat, count=_it.count),
+                          "accumulate": _lz(_it.accumulate), "chain": _lz(_it.chain), "combinations": _lz(_it.combinations), "permutations": _lz(_it.permutations),
+                          "product": _lz(_it.product), "islice": _lz(_it.islice), "zip_longest": _lz(_it.zip_longest),
                           "re": Namespace(compile=_re.compile, match=_re.match, fullmatch=_re.fullmatch, search=_re.search, findall=_re.findall, sub=_re.sub, split=_re.split,
                                           IGNORECASE=_re.IGNORECASE, I=_re.I)}
         self.externals.update(externals or {})
@@ -898,6 +908,10 @@ class Evaluator:
         if isinstance(f, tuple) and f and f[0] == "pyfunc":
             if any(isinstance(a, (Obj, ClassRef)) for a in args) and f[1] not in self.externals.values():
                 raise Undecided("builtin on object")
+            # a function of the evaluated program handed to a library function (key=, accumulate(xs, f), re.sub(p, f, s)) is called back through the evaluator
+            wrap = lambda v_: (lambda *a_: self._apply(v_, list(a_), {}, e)) if isinstance(v_, tuple) and v_ and v_[0] in ("closure", "func", "method") else v_
+            args = [wrap(a_) for a_ in args]
+            kw = {k_: wrap(v_) for k_, v_ in kw.items()}
             try:
                 return f[1](*args, **kw)
             except (ValueError, TypeError, OverflowError) as x:
